@@ -422,8 +422,85 @@ def int_valued_fact(e):
     return e == z3.ToReal(k)
 
 
-def int_valued_goal(e):
+def int_valued_goal(e, ctx=None):
+    """goal 'e is integer-valued'.  With a context, a structural argument is tried first: sums, differences,
+    products and if-then-elses of integer-valued terms are integer-valued; a term is integer-valued when it is
+    to_real(_), an integer numeral, or the path condition holds  term == to_real(k)  (a witness from a read)."""
+    if ctx is not None and _structurally_int(z3.simplify(e), ctx):
+        return z3.BoolVal(True)
     return e == z3.ToReal(z3.ToInt(e))
+
+
+def int_term(e, ctx, depth=0):
+    """an Int-sorted term equal to the real-valued e when e is integer-valued for a structural reason (see
+    int_valued_goal), else None.  Used for C++ double -> int conversions of integer-valued doubles."""
+    if z3.is_int(e):
+        return e
+    if z3.is_rational_value(e):
+        return z3.IntVal(e.numerator_as_long()) if e.denominator_as_long() == 1 else None
+    if not z3.is_app(e) or depth > 12:
+        return None
+    k = e.decl().kind()
+    if k == z3.Z3_OP_TO_REAL:
+        return e.arg(0)
+    if k in (z3.Z3_OP_ADD, z3.Z3_OP_SUB, z3.Z3_OP_MUL, z3.Z3_OP_UMINUS):
+        ch = [int_term(c, ctx, depth + 1) for c in e.children()]
+        if any(c is None for c in ch):
+            return None
+        if k == z3.Z3_OP_UMINUS:
+            return -ch[0]
+        acc = ch[0]
+        for c in ch[1:]:
+            acc = acc + c if k == z3.Z3_OP_ADD else (acc - c if k == z3.Z3_OP_SUB else acc * c)
+        return acc
+    if k == z3.Z3_OP_ITE:
+        a, b = int_term(e.arg(1), ctx, depth + 1), int_term(e.arg(2), ctx, depth + 1)
+        return None if a is None or b is None else z3.If(e.arg(0), a, b)
+    for f in reversed(ctx.pc):
+        for g in (f.children() if z3.is_and(f) else [f]):
+            if z3.is_eq(g):
+                a, b = g.children()
+                if z3.is_app(b) and b.decl().kind() == z3.Z3_OP_TO_REAL and a.get_id() == e.get_id():
+                    return b.arg(0)
+                if z3.is_app(a) and a.decl().kind() == z3.Z3_OP_TO_REAL and b.get_id() == e.get_id():
+                    return a.arg(0)
+    return None
+
+
+def _structurally_int(e, ctx, depth=0):
+    if z3.is_int(e):
+        return True
+    if z3.is_rational_value(e):
+        return e.denominator_as_long() == 1
+    if not z3.is_app(e) or depth > 12:
+        return False
+    k = e.decl().kind()
+    if k == z3.Z3_OP_TO_REAL:
+        return True
+    if k in (z3.Z3_OP_ADD, z3.Z3_OP_SUB, z3.Z3_OP_MUL, z3.Z3_OP_UMINUS):
+        return all(_structurally_int(c, ctx, depth + 1) for c in e.children())
+    if k == z3.Z3_OP_ITE:
+        return all(_structurally_int(c, ctx, depth + 1) for c in e.children()[1:])
+    if k == z3.Z3_OP_SELECT and z3.is_app(e.arg(0)) and e.arg(0).decl().kind() == z3.Z3_OP_STORE:
+        st = e.arg(0)
+        return (_structurally_int(st.arg(2), ctx, depth + 1) and
+                _structurally_int(z3.Select(st.arg(0), e.arg(1)), ctx, depth + 1))
+    wit = getattr(ctx, "_int_witnessed", None)
+    if wit is None or wit[0] != len(ctx.pc):
+        ids = set()
+        for f in ctx.pc:
+            for g in (f.children() if z3.is_and(f) else [f]):
+                if z3.is_eq(g):
+                    a, b = g.children()
+                    if z3.is_app(b) and b.decl().kind() == z3.Z3_OP_TO_REAL:
+                        ids.add(z3.simplify(a).get_id())
+                        ids.add(a.get_id())
+                    if z3.is_app(a) and a.decl().kind() == z3.Z3_OP_TO_REAL:
+                        ids.add(z3.simplify(b).get_id())
+                        ids.add(b.get_id())
+        wit = (len(ctx.pc), ids)
+        ctx._int_witnessed = wit
+    return e.get_id() in wit[1]
 
 
 def nonneg(I, o, e, i):
